@@ -7,11 +7,14 @@
      correspondence check).  None = the plain run ends with on_error (a raising function, first/last
      on an empty group, a failing assert): excluded by the property.
    The typed-state precondition of the property is built into plain_pipe (scan_res requires `fits`).
-   tee_map is outside plain_pipe: its plain and multiplexed joins are the same function (C08), tied
-   by correspondence only. *)
+   ptimed_pipe P xs = Some (steps, fin) : the TIMED plain list semantics (Mux/PlainTimed.v), tee_map with
+     its three joins included (take / first, which complete a plain observable early, are left to
+     plain_pipe): while the i-th item is pushed the plain subscriber receives nth i steps, and fin when the
+     source completes.  Pure list functions, tied to the real plain runs step by step by the
+     correspondence check (MCPlainT). *)
 From Coq Require Import List ZArith Bool.
 From RxVerif Require Import Mux.Val Mux.Sim Mux.SimExt Mux.Ops Mux.Syntax Mux.ConfineProofs Mux.LocalSemProofs
-  Mux.OpsSpecProofs Mux.MasterProofs Mux.Plain Mux.PlainProofs.
+  Mux.OpsSpecProofs Mux.MasterProofs Mux.Plain Mux.PlainProofs Mux.PlainTimed Mux.PlainTimedProofs.
 Import ListNotations.
 
 (* per key: over one lifetime the local machine of P emits exactly what P computes on a plain observable *)
@@ -38,6 +41,19 @@ Theorem C01_composition : forall (L1 L2 : lm) (xs : list item),
   items_of item (compose_l L1 L2) xs = items_of item L2 (items_of item L1 xs).
 Proof. exact (compose_items item). Qed.
 Print Assumptions C01_composition.
+
+(* ... and step by step, tee_map included: the local machine emits while each item is consumed, and at
+   completion, exactly what the timed plain semantics says the pipeline emits on a plain observable *)
+Theorem C01_local_equals_plain_timed : forall (P : list op) (xs : list val) (r : timed),
+  ptimed_pipe P xs = Some r -> ltimed item (pipe_l P) (its xs) = (map its (fst r), its (snd r)).
+Proof. exact ptimed_pipe_sound. Qed.
+Print Assumptions C01_local_equals_plain_timed.
+
+Example C01_example_tee :
+  ptimed_pipe [OTee Zip [[OFilter FIsOdd]; [OScan A2Add (VInt 0) TInt false None]]; OMap (FNth 1%nat)]
+              [VInt 1; VInt 2; VInt 3]
+  = Some ([[VInt 1]; []; [VInt 3]], []).
+Proof. vm_compute. reflexivity. Qed.
 
 Example C01_example :
   plain_pipe [OFilter (FMod 2); OScan A2Add (VInt 0) TInt false None; OTake 2] [VInt 1; VInt 2; VInt 3; VInt 5]
